@@ -72,7 +72,13 @@ Definition r_jump (t : reg) : list rcode := [JALR ZERO t 0].
 Definition r_jump_label (l : string) : list rcode := [JAL ZERO l].
 Definition r_load_immediate (t : reg) (i : Z) : list rcode := [LI t i].
 Definition r_load_label (t : reg) (l : string) : list rcode := [LA t l].
-Definition r_add_and_jump (t : reg) (i : Z) : list rcode := [ADDI TEMP t i; JALR ZERO TEMP 0].
+(* add_and_jump (repaired, fix of the finding "tag dispatch immediate", docs/C14.md): the immediate of ADDI has 12 bits
+   (signed); a larger offset (a type with more than 512 xtors) is first loaded into the scratch register *)
+Definition addi_fits (i : Z) : bool := ((-2048 <=? i) && (i <=? 2047))%Z.
+Definition r_add_and_jump (t : reg) (i : Z) : list rcode :=
+  (if addi_fits i then [ADDI TEMP t i] else [LI TEMP i; ADD TEMP t TEMP]) ++ [JALR ZERO TEMP 0].
+(* the code before the repair (regression lemmas of C14) *)
+Definition old_r_add_and_jump (t : reg) (i : Z) : list rcode := [ADDI TEMP t i; JALR ZERO TEMP 0].
 Definition r_mov (t s : reg) : list rcode := [MV t s].
 
 (* ---------- memory.rs ---------- *)
